@@ -240,7 +240,7 @@ def utf8_family(v, work):
                     problems = []
                     if r.panicked or r.timed_out or r.signal is not None:
                         problems.append("abnormal-termination")
-                    rep = cli.Report(r.stdout)
+                    rep = cli.Report(r.stdout, names=names, src=os.path.join(proj, "src"), err=r.stderr)
                     if not any(os.path.basename(p) == names[place] for p in rep.read_failures):
                         problems.append("unreadable-file-not-reported")
                     if after["src/" + names[place]] != content:
